@@ -368,7 +368,10 @@ fn worker_digest(wid: u64, seed: u64, steps: usize, delays: bool, shared: Option
         for kind in ALL_KINDS {
             let mut rare = Inst::new(&variant(kind, 1));
             for i in 0..6 {
-                let op = if kind.has_scalar() { Op::NextF(10.0) } else { Op::NextBar(Bar::flat(10.0, if i % 2 == 0 { 0.0 } else { 5.0 })) };
+                // (the fifth input is a NaN: whatever an indicator does on bad input, it does it every time, not
+                // "once per process")
+                let x = if i == 4 { f64::NAN } else { 10.0 };
+                let op = if kind.has_scalar() { Op::NextF(x) } else { Op::NextBar(Bar { c: x, ..Bar::flat(10.0, if i % 2 == 0 { 0.0 } else { 5.0 }) }) };
                 digest_out(&mut h, &rare.apply(&op));
             }
         }
@@ -566,7 +569,13 @@ pub fn run_decoys(seed: u64) {
                 Err(_) => continue,
             };
             for i in 0..40 {
-                let b = g.next();
+                let mut b = g.next();
+                if i == 17 || i == 18 {
+                    b.c = f64::NAN; // decoys see bad input too (once as a scalar, once inside a bar)
+                }
+                if i == 29 {
+                    b.v = 0.0;
+                }
                 let _ = if kind.has_scalar() && i % 2 == 0 { inst.apply(&Op::NextF(b.c)) } else { inst.apply(&Op::NextBar(b)) };
             }
             let _ = inst.display();
